@@ -58,15 +58,15 @@ LoggedWellFormed(e, P) ==     \* P = LoadState(e.post)
    /\ Say(\A j \in 1..Len(e.obs.by_nid_gone) : e.obs.by_nid_gone[j][2] = 0, id, "C01", "removed_still_found", why)
    /\ Say(e.obs.iter = Pre(P, 0), id, "C01", "iteration", why)
 
-LoggedIndexExact(e, P) ==
+LoggedIndexExactFor(prop, e, P) ==
    LET id == e.id why == e.op.name
        R  == LiveIds(e.post)
        With(d) == {i \in R : e.post.did[i] = d}
    IN
    /\ Say(\A j \in 1..Len(e.obs.by_did) : SeqSet(e.obs.by_did[j][2]) = With(e.obs.by_did[j][1])
                                           /\ Len(e.obs.by_did[j][2]) = Cardinality(With(e.obs.by_did[j][1])),
-          id, "C02", "find_all_data_id", why)
-   /\ Say(e.obs.count_unique = Cardinality({e.post.did[i] : i \in R}), id, "C02", "count_unique", why)
+          id, prop, "find_all_data_id", why)
+   /\ Say(e.obs.count_unique = Cardinality({e.post.did[i] : i \in R}), id, prop, "count_unique", why)
    /\ Say(\A j \in 1..Len(e.obs.by_data) :
               LET q == e.obs.by_data[j] M == With(DefDid(q.d)) IN
               /\ SeqSet(q.all) = M /\ Len(q.all) = Cardinality(M)
@@ -77,14 +77,16 @@ LoggedIndexExact(e, P) ==
               /\ \A k \in 1..Len(q.lim) : /\ SeqSet(q.lim[k]) \subseteq M
                                           /\ NoDup(q.lim[k])
                                           /\ Len(q.lim[k]) = (IF k < Cardinality(M) THEN k ELSE Cardinality(M)),
-          id, "C02", "find_by_data", why)
+          id, prop, "find_by_data", why)
    /\ Say(\A j \in 1..Len(e.obs.clones) :
               LET q == e.obs.clones[j] M == With(e.post.did[q.i]) IN
               /\ SeqSet(q.others) = M \ {q.i} /\ Len(q.others) = Cardinality(M) - 1
               /\ SeqSet(q.withself) = M /\ Len(q.withself) = Cardinality(M)
               /\ q.isclone = (Cardinality(M) > 1),
-          id, "C02", "clones", why)
-   /\ Say(\A i \in R : e.post.did[i] # -1, id, "C02", "data_id_rule", why)
+          id, prop, "clones", why)
+   /\ Say(\A i \in R : e.post.did[i] # -1, id, prop, "data_id_rule", why)
+
+LoggedIndexExact(e, P) == LoggedIndexExactFor("C02", e, P)
 
 LoggedSiblingUnique(e, P) ==
    Say(\A p \in LiveIds(e.post) \cup {0} : NoDup(KidDids(P, p)), e.id, "C03", "sibling_unique", e.op.name)
@@ -116,6 +118,8 @@ CheckStep(e) ==
    IF bad THEN
       /\ Say(FALSE, id, "C01", "unprojectable:" \o e.bad, why)
       /\ Say(StatusAllowed(r, e.status), id, "C04", "status:" \o e.status, why)
+      \* a refused call after which the tree (or its lookups) cannot even be observed is not "unchanged"
+      /\ Say(e.status = "ok", id, "C13", "unobservable_after_error:" \o e.bad, why)
    ELSE
    LET P == LoadState(e.post) X == r.st IN
    \* --- invariants on what the code left behind
@@ -124,6 +128,8 @@ CheckStep(e) ==
    /\ LoggedSiblingUnique(e, P)
    \* --- C13: an escaping exception leaves the observable tree unchanged
    /\ Say(e.status = "ok" \/ Unchanged(e.pre, e.post), id, "C13", "changed_on_error:" \o e.status, why)
+   \* ... observably unchanged includes the lookups (they were exact before the call)
+   /\ (e.status # "ok" /\ Unchanged(e.pre, e.post) => LoggedIndexExactFor("C13", [e EXCEPT !.op = [name |-> "lookups_after_refusal:" \o why]], P))
    \* --- C03: whatever would create duplicate siblings is refused with the uniqueness error
    /\ Say((~r.ok /\ r.errs = {"UniqueConstraintError"}) => e.status = "UniqueConstraintError",
           id, "C03", "dup_not_refused:" \o e.status, why)
